@@ -6,6 +6,7 @@ import DaskModel.Model.Frame
 import DaskModel.Model.TreeReduce
 import DaskModel.Model.RelExpr
 import DaskModel.Model.OrRewrite
+import DaskModel.Model.DTypes
 open Dask
 
 /-! Line-protocol handlers of group dfrows (C36 C37 C42 C43 C46). Cells: an integer or `none`. -/
@@ -535,6 +536,45 @@ def hOptCheck : Handler := handler fun args =>
     pure (.list (go es))
   | _ => none
 
+open Dask.RelExpr in
+def toDT? : SExp → Option DT
+  | .sym "int64" => some .int64 | .sym "float64" => some .float64 | .sym "bool" => some .bool
+  | _ => none
+open Dask.RelExpr in
+def ofDT : DT → SExp
+  | .int64 => .sym "int64" | .float64 => .sym "float64" | .bool => .sym "bool"
+
+def toTCols? (e : SExp) : Option (List (String × Dask.RelExpr.DT)) := do
+  (← e.toList?).mapM (fun x => match x with | .list [.str n, d] => do pure (n, ← toDT? d) | _ => none)
+
+/-- `(dtypeof ((name dtype)…) e)` ↦ `(frame ((name dtype)…))` | `(series dtype)` | `(scalar dtype)` | `none` -/
+def hDTypeOf : Handler := handler fun args =>
+  match args with
+  | [cols, e] => do
+    match Dask.RelExpr.dtypeOf (← toTCols? cols) (← toE? e) with
+    | some (.frame cs) => pure (.list [.sym "frame", .list (cs.map (fun (n, d) => .list [.str n, ofDT d]))])
+    | some (.series d) => pure (.list [.sym "series", ofDT d])
+    | some (.scalar d) => pure (.list [.sym "scalar", ofDT d])
+    | none => pure (.sym "none")
+  | _ => none
+
+/-- `(bindtype <op> <da> <db>)` / `(notdtype <d>)` ↦ dtype | `none` -/
+def hBinDType : Handler := handler fun args =>
+  match args with
+  | [.sym op, a, b] => do
+    match Dask.RelExpr.binDType (← toBinOp? op) (← toDT? a) (← toDT? b) with
+    | some d => pure (ofDT d)
+    | none => pure (.sym "none")
+  | _ => none
+
+def hNotDType : Handler := handler fun args =>
+  match args with
+  | [a] => do
+    match Dask.RelExpr.notDType (← toDT? a) with
+    | some d => pure (ofDT d)
+    | none => pure (.sym "none")
+  | _ => none
+
 open Dask.OrRewrite in
 partial def toP? : SExp → Option P
   | .list [.sym "atom", .int n] => if n ≥ 0 then some (.atom n.toNat) else none
@@ -584,6 +624,7 @@ def table : List (String × Handler) := [
   ("treeshape", hTreeShape), ("reduce", hReduce), ("reducespec", hReduceSpec),
   ("reduce2", hReduce2), ("reduce2spec", hReduce2Spec), ("idxfn", hIdxFn), ("vcfn", hVcFn), ("mmfn", hMmFn),
   ("opteval", hOptEval), ("optcheck", hOptCheck), ("metaof", hMetaOf),
-  ("rewritefilters", hRewriteFilters), ("predcomps", hPredComps)]
+  ("rewritefilters", hRewriteFilters), ("predcomps", hPredComps),
+  ("dtypeof", hDTypeOf), ("bindtype", hBinDType), ("notdtype", hNotDType)]
 
 def main : IO Unit := runDriver table
